@@ -230,7 +230,7 @@ def Store.allPairsPre (s : Store) (weighted : Bool) (target : Option Nat) : Outc
     ``` -/
 def Store.apItem (s : Store) (weighted : Bool) (ti target : Option Nat) (cutoff2 : Option Int)
     (firstOnly withPaths : Bool) (nodeIndex : Nat) : Outcome (Nat × List (Nat × SPInfo)) := do
-  let ss ← (s.runOne weighted nodeIndex ti target cutoff2 firstOnly withPaths).unwrap "all_pairs_iter: unwrap"
+  let ss ← (s.runOne weighted nodeIndex ti target cutoff2 firstOnly withPaths)
   .ok (nodeIndex, ss)
 
 /-- The code after `.collect::<Vec<(usize, Vec<(usize, ShortestPathInfo<usize>)>)>>()` in `all_pairs`:
@@ -252,7 +252,7 @@ private theorem allPairs_loop (s : Store) (weighted : Bool) (ti target : Option 
     (firstOnly withPaths : Bool) :
     (List.range s.numberOfNodes).foldl (fun acc i => do
       let out ← acc
-      let r ← (s.runOne weighted i ti target cutoff2 firstOnly withPaths).unwrap "all_pairs_iter: unwrap"
+      let r ← (s.runOne weighted i ti target cutoff2 firstOnly withPaths)
       let src ← Outcome.ofOption "all_pairs: get_node_by_index().unwrap()" (s.getNodeByIndex i)
       let named ← s.spToNames r
       .ok (ainsert out src.name named)) (.ok [])
@@ -264,7 +264,7 @@ private theorem allPairs_loop (s : Store) (weighted : Bool) (ti target : Option 
   cases acc with
   | ok out =>
     unfold Store.apItem
-    cases (s.runOne weighted i ti target cutoff2 firstOnly withPaths).unwrap "all_pairs_iter: unwrap" <;> rfl
+    cases (s.runOne weighted i ti target cutoff2 firstOnly withPaths) <;> rfl
   | err k => rfl
   | panic m => rfl
 
@@ -380,7 +380,7 @@ def Store.multiSourcePre (s : Store) (sources : List Nat) (target : Option Nat) 
     ``` -/
 def Store.msItem (s : Store) (weighted : Bool) (target : Option Nat) (cutoff2 : Option Int)
     (firstOnly withPaths : Bool) (source : Nat) : Outcome (Nat × List (Nat × SPInfo)) := do
-  let r ← (s.singleSource weighted source target cutoff2 firstOnly withPaths).unwrap "multi_source: unwrap"
+  let r ← (s.singleSource weighted source target cutoff2 firstOnly withPaths)
   .ok (source, r)
 
 /-- The code after `.collect()`: `Ok(shortest_paths.into_iter().collect())` (into a `HashMap`, i.e. one
@@ -394,7 +394,7 @@ private theorem multiSource_loop (s : Store) (weighted : Bool) (sources : List N
     (cutoff2 : Option Int) (firstOnly withPaths : Bool) :
     sources.foldl (fun acc src => do
       let out ← acc
-      let r ← (s.singleSource weighted src target cutoff2 firstOnly withPaths).unwrap "multi_source: unwrap"
+      let r ← (s.singleSource weighted src target cutoff2 firstOnly withPaths)
       .ok (ainsert out src r)) (.ok [])
     = msFold (sources.map (s.msItem weighted target cutoff2 firstOnly withPaths)) := by
   unfold msFold
@@ -404,7 +404,7 @@ private theorem multiSource_loop (s : Store) (weighted : Bool) (sources : List N
   cases acc with
   | ok out =>
     unfold Store.msItem
-    cases (s.singleSource weighted src target cutoff2 firstOnly withPaths).unwrap "multi_source: unwrap" <;> rfl
+    cases (s.singleSource weighted src target cutoff2 firstOnly withPaths) <;> rfl
   | err k => rfl
   | panic m => rfl
 
